@@ -225,6 +225,17 @@ def handle (st : WireState) (op : String) (args : List String) : Option (WireSta
     let k ← if key == "*" then some none else (decStr key).map some
     let st := { st with wnames := st.wnames ++ [w] }
     pure (envStep st (.watch k (replay == "1")), "ok")
+  | "watch", [w, replay, key, "paused"] => do
+    -- a slow consumer: it does not start reading until `unpause` (Watch has returned, the replay is not drained)
+    let k ← if key == "*" then some none else (decStr key).map some
+    let st := { st with wnames := st.wnames ++ [w] }
+    let i := st.wst.ws.length
+    match Watch.step st.cfg st.wst (.watch k (replay == "1")) with
+    | some w1 => pure (envStep { st with wst := w1 } (.stopReading i), "ok")
+    | none => none
+  | "unpause", [w] => do
+    let i ← widx st w
+    pure (envStep st (.resumeReading i), "ok")
   | "stop", [w] => do
     let i ← widx st w
     pure (envStep st (.stopReading i), "ok")
